@@ -20,7 +20,8 @@ RULE = ('Hypothesis rule-based state machines: initialisation draws the AMHL see
         'the scalar S_i = sum_{k<=i} y_k mod L that the documented derivation assigns to hop i (pure-Python reference). '
         'Invariants: hop i\'s tweak point = S_i*G, check_setup accepts every view, verify_lock_key(last point, key); an '
         'attempt succeeds (decrypted signature unlocks hop i through run_auth_scripts) <=> its scalar is S_i. '
-        'non-trivial = n >= 3 and >= 1 failing attempt, or refund keys present; distinct by (n, refund pattern, attempt sequence).')
+        'non-trivial = n >= 3 and >= 1 failing attempt, or refund keys present; distinct by (n, refund pattern, attempt sequence).'
+        ' Also the empty AMHL seed (random samples, token_bytes pinned; the model takes the per-hop secrets from the setup) and VerifyKey objects as parties and refund-mapping keys.')
 ASSUMPTIONS = ['AMHL.sample derivation as documented: clamp(sha256(seed || i as 8 bytes big endian))',
                'vt/ed25519_ref.py for scalar / point arithmetic',
                'the parties of a chain have distinct public keys (setup_amhl returns a dict keyed by public key: a repeated key '
